@@ -103,6 +103,27 @@ let run toks =
             | Some TrFuel -> "fuel"
             | None -> "badrequest")
        | _ -> "driver-error res: expected <request hex> <result hex>")
+  (* randres <function tid> <result tid> <result bare 0|1> <nargs> <natarg>... | <request TL1 boxed hex> <seed> <fuel> :
+     FillRandomResultTL1 of the function holding that request: the result type filled under the request's environment (C18) *)
+  | "randres" :: ft :: rt :: rbare :: _n :: rest ->
+      let (args, tail) = split_bar rest [] in
+      (match tail with
+       | [req; seed; fuel] ->
+           let rq = bytes_of_hex req in
+           (match dec1 (nat_of_int (64 + 4 * List.length rq)) false schema (tid ft) false [] rq with
+            | Some (Ok (q, _)) ->
+                let fr = { fr_ty = tid rt; fr_bare = (rbare = "1"); fr_args = List.map parse_natarg args } in
+                let ps = result_env q fr in
+                (match (try Some (fill_random (fuel_of fuel) schema xs (tid rt) ps (budgeted (n_of_dec seed))) with Draw_budget -> None) with
+                 | Some (FOk (v, _)) ->
+                     (match enc1 false schema (tid rt) (rbare = "1") ps v with
+                      | Some b -> "ok " ^ hex_of_bytes b
+                      | None -> "encnone")
+                 | Some FFuel -> "fuel"
+                 | Some FBad -> "bad"
+                 | None -> "budget")
+            | _ -> "badrequest")
+       | _ -> "driver-error randres")
   (* renv <function tid> <nargs> <natarg>... | <request hex> : the result environment of a request *)
   | "renv" :: ft :: _n :: rest ->
       let (args, tail) = split_bar rest [] in
